@@ -74,6 +74,11 @@ CHECKS = {
    text="auth_only_if_verified (state issued < 120 s ago — regenerated constant —, code exchanged, ID token present and verified, non-empty user-name claim, session user = that claim), failure_keeps_session and failure_then_connect_redirects (every failure point, store-independent), stale_state_refused, unauthenticated_redirected; legacy_file_store_authenticates proves defect D21 of the pinned callback (repaired). Tie: full browser flows against the real handlers for every failure point × both stores, identities with several claim names, then /connect (200 vs 302, restored user name); every single-character substitution and truncation of a valid session cookie and cross-instance reuse must not authenticate.",
    design="6/C13",
    note="ID-token verification is go-oidc's, cookie integrity securecookie's, identity serialisation gob's: those clauses are explored, not proved. State expiry (2 min) is proved on the model and tied by the regenerated constant only (the harness cannot advance go-cache's clock)."),
+ "C12": dict(
+   technique="Lean 4 theorems about the download decision procedure composed with the cookie and policy models + differential correspondence of the real Authenticated/HandleDownload handlers and token generators, and replay of issued files through the real tunnel checks",
+   text="unauth_no_token, host_policy (per mode), claims_exact, splitAt_no_sep, file_host_is_token_host, issue_then_accept_partial (issued host+token pass Cookie.check, checkSession and checkHost from the same address within 360 s, provided the chosen entry has no placeholder or the IdP subject equals the session user name), issue_then_accept_counterexample (known finding D22) in Props/C12.lean. Tie: the real handlers on generated modes × lists × host parameters (incl. valid/expired/forged/wrong-issuer query tokens) × users × templates × addresses × session states; file lines and token claims decoded independently; issued (host, token) presented to the real CheckPAACookie → CheckSession(CheckHost).",
+   design="6/C12",
+   note="Round-robin's random pick is not reproduced: membership in the configured list is checked. fmt.Sprintf(template) with formatting verbs is not modelled. Known finding D22 (placeholder entries vs IdP subject) is listed in KNOWN_FINDINGS.txt."),
 }
 
 def entry(pid, c):
